@@ -96,6 +96,8 @@ def run(ctx, spec):
         elif op == 'eq':
             lines.append('_ %s.eq %s %s' % (f, h32(a), h32(b)))
             exp.append(('%s.eq' % f, 'bool ' + ('true' if a == b else 'false'), (op, a, b), a > 1 or b > 1, pc))
+            lines.append('_ %s.ne %s %s' % (f, h32(a), h32(b)))
+            exp.append(('%s.eq' % f, 'bool ' + ('false' if a == b else 'true'), ('ne', a, b), a > 1 or b > 1, pc))
         elif op == 'is_even':
             lines.append('_ fq.is_even %s' % h32(a))
             exp.append(('fq.is_even', 'bool ' + ('true' if a % 2 == 0 else 'false'), (op, a), a > 1, pc))
